@@ -328,6 +328,18 @@ func c06Replay(i int, raw json.RawMessage) Result {
 				Detail: fmt.Sprintf("{{ 1 | isset(_, %s) }} on root %s rendered %q (err %v), spec %v", expr, v.Root, o5, e5, v.IsSet)}
 		}
 	}
+	// a value piped in WITHOUT a slot is the first argument and the written ones follow it: all of them are looked at,
+	// the last one included
+	if last.T != "call" && last.T != "slice" {
+		for _, form := range []string{"{{ 1 | isset(" + expr + ") }}", "{{ 1 | isset: 2, " + expr + " }}", "{{ 1 | isset(" + expr + ", 2) }}"} {
+			o6, e6 := c06Render(form, v.Root)
+			if e6 != nil || o6 != fmt.Sprint(v.IsSet) {
+				sig["kind"] = "isset-piped-args"
+				return Result{Sig: sig, Key: key, Observed: map[string]interface{}{"out": o6, "err": fmt.Sprint(e6)}, Expected: v.IsSet,
+					Detail: fmt.Sprintf("%s on root %s rendered %q (err %v), spec %v", form, v.Root, o6, e6, v.IsSet)}
+			}
+		}
+	}
 	// piped form: only when the access itself succeeds (the pipeline evaluates it before isset sees it)
 	if v.Outcome.Kind != "error" && last.T != "call" && last.T != "slice" {
 		for _, form := range []string{"{{ " + expr + " | isset }}", "{{ " + expr + " | isset(_) }}", "{{ " + expr + " | isset(root, _) }}"} {
